@@ -8,7 +8,7 @@
     constants from Gen.Consts) on the same script predicts the same outcome for every thread
     at the same time, within the tolerance.  Because the implementation's poll instants
     are only known up to scheduling jitter, the script is also simulated with the external
-    events shifted by -J and +J; any of the three predictions may match.
+    events shifted by -J and +J and with latencies added to the sleeps (see [variant]).
 
     [spec_ok]: the property's clauses evaluated on the implementation's observation
     alone: hold intervals of live holders are disjoint; after a holder is killed a
@@ -71,9 +71,26 @@ Definition no_bound : Z := 1000000000000000.
 Definition script_of (j : Z) (es : list ev) : list (Z * sevent) :=
   map (fun e => ((if (ekind e =? 1) || (ekind e =? 2) then Z.max 0 (etime e + j) else etime e), sevent_of e)) es.
 
-Definition model_outlog (c : case) (j : Z) : list (tid * Z * Z) :=
-  outlog (simulate (cfg_repo_eps (if suspends (cevents c) then no_bound else sim_delta) (cgap c)) 4000 (chorizon c)
-                   (Sim (init_state (cinit c) (-1)) (script_of j (cevents c)) [] [] [] [] (cslow c) [])).
+(** *** scheduling jitter
+
+    The implementation's poll instants are known only up to scheduling latency: every sleep
+    of a Lock call lasts the nominal time plus whatever the machine adds (tens of ms when
+    idle, hundreds under load or under strace).  A [variant] fixes such latencies for the
+    simulation: a shift [vj] of the unlock / kill events, a latency [vlat0] added to every
+    sleep, and extra latencies for single threads.  The comparison first looks for ONE
+    variant without latency that explains the whole observation; failing that, every
+    thread's observation must be explained by SOME variant of a grid up to 600 ms (threads
+    independently: the envelope of the admissible jitter).  What the model must get right
+    in every variant: who ends how, and when up to a poll period. *)
+Record variant := Variant { vj : Z; vlat0 : Z; vlats : list (tid * Z) }.
+
+Definition sim_cfg (c : case) : config :=
+  cfg_repo_eps (if suspends (cevents c) then no_bound else sim_delta) (cgap c).
+Definition sim_run (c : case) (v : variant) : sim :=
+  simulate (sim_cfg c) 4000 (chorizon c)
+           (Sim (init_state (cinit c) (-1)) (script_of (vj v) (cevents c)) [] [] [] [] (cslow c) [] (vlat0 v) (vlats v)).
+Definition model_outlog_v (c : case) (v : variant) : list (tid * Z * Z) := outlog (sim_run c v).
+Definition model_outlog (c : case) (j : Z) : list (tid * Z * Z) := model_outlog_v c (Variant j 0 []).
 
 Definition find_out (lg : list (tid * Z * Z)) (t : Z) : option (Z * Z) :=
   match find (fun x => Z.of_nat (fst (fst x)) =? t) lg with
@@ -87,15 +104,37 @@ Definition ob_agrees (tol : Z) (lg : list (tid * Z * Z)) (o : ob) : bool :=
   | None => oout o =? -1
   end.
 
-Definition agrees_with (c : case) (j : Z) : bool := forallb (ob_agrees (ctol c) (model_outlog c j)) (cobs c).
+(** [exists_lazy] stops at the first hit also under vm_compute *)
+Fixpoint exists_lazy {A} (f : A -> bool) (l : list A) : bool :=
+  match l with
+  | [] => false
+  | x :: r => if f x then true else exists_lazy f r
+  end.
+
+Definition ms : Z := 1000000.
+Definition uniform_lats : list Z := map (fun x => x * ms) [20; 40; 60; 80; 100; 130; 160; 200; 250; 300; 350; 400; 450; 500; 550; 600].
+Definition single_lats : list Z := map (fun x => x * ms) [120; 300; 550].
+Definition case_tids (c : case) : list tid :=
+  map (fun e => Z.to_nat (ea e)) (filter (fun e => ekind e =? 0) (cevents c)).
+Definition base_variants (c : case) : list variant :=
+  [Variant 0 0 []; Variant (- cjit c) 0 []; Variant (cjit c) 0 []].
+Definition all_variants (c : case) : list variant :=
+  flat_map (fun j =>
+              Variant j 0 [] ::
+              map (fun l => Variant j l []) uniform_lats ++
+              flat_map (fun t => map (fun l => Variant j 0 [(t, l)]) single_lats) (case_tids c))
+           [0; - cjit c; cjit c].
+
+Definition agrees_with (c : case) (v : variant) : bool := forallb (ob_agrees (ctol c) (model_outlog_v c v)) (cobs c).
 Definition model_agrees (c : case) : bool :=
-  agrees_with c 0 || agrees_with c (- cjit c) || agrees_with c (cjit c).
+  if exists_lazy (agrees_with c) (base_variants c) then true
+  else forallb (fun o => exists_lazy (fun v => ob_agrees (ctol c) (model_outlog_v c v) o) (all_variants c)) (cobs c).
 
 (** ** the monitors *)
 Definition slack : Z := 1500000000.
 Definition recovery_bound : Z :=
   lock_stale_factor * lock_freshness_interval + file_lock_poll_interval + lock_empty_retries * lock_empty_sleep + slack.
-Definition cancel_bound : Z := 500000000.
+Definition cancel_bound : Z := 900000000.
 Definition clock_slack : Z := 5000000.
 
 Definition first_time (es : list ev) (k a : Z) : option Z :=
@@ -158,7 +197,7 @@ Definition cancel_ok (c : case) : bool :=
     kills or suspensions, a thread all of whose contenders either finished (Lock failed, or Unlock called)
     at least [free_margin] before it called Lock, or call Lock only [free_prompt] after it,
     acquires within [free_prompt] (well below the poll interval) *)
-Definition free_prompt : Z := 800000000.
+Definition free_prompt : Z := 900000000.
 Definition free_margin : Z := 100000000.
 Definition finished_before (c : case) (o' : ob) (t : Z) : bool :=
   if oout o' =? 0 then match first_time (cevents c) 1 (otid o') with Some u => u + free_margin <=? t | None => false end
@@ -259,18 +298,19 @@ Fixpoint sys_trace_of (c : config) (p : pid) (s : state) (ls : list label) : lis
       | None => here
       end
   end.
-Definition model_syscalls (c : case) (p : pid) : list Z :=
-  let cfg := cfg_repo_eps (if suspends (cevents c) then no_bound else sim_delta) (cgap c) in
-  let s0 := init_state (cinit c) (-1) in
-  let m := simulate cfg 4000 (chorizon c) (Sim s0 (script_of 0 (cevents c)) [] [] [] [] (cslow c) []) in
-  sys_trace_of cfg p s0 (rev (trace m)).
+Definition model_syscalls_v (c : case) (p : pid) (v : variant) : list Z :=
+  sys_trace_of (sim_cfg c) p (init_state (cinit c) (-1)) (rev (trace (sim_run c v))).
+Definition model_syscalls (c : case) (p : pid) : list Z := model_syscalls_v c p (Variant 0 0 []).
 Fixpoint zl_eqb (a b : list Z) : bool :=
   match a, b with
   | [], [] => true
   | x :: a', y :: b' => (x =? y) && zl_eqb a' b'
   | _, _ => false
   end.
-Definition sys_agrees (c : case) (p : pid) (obs : list Z) : bool := zl_eqb (model_syscalls c p) obs.
+(** the number of polls a waiter makes depends on the latencies: some variant must give exactly
+    the observed sequence *)
+Definition sys_agrees (c : case) (p : pid) (obs : list Z) : bool :=
+  exists_lazy (fun v => zl_eqb (model_syscalls_v c p v) obs) (all_variants c).
 
 Fixpoint sys_shape (prev2 prev1 : Z) (l : list Z) : bool :=
   match l with
